@@ -94,26 +94,27 @@ type Config struct {
 }
 
 type Stats struct {
-	Level           string         `json:"level"`
-	Yields          int            `json:"yields"`
-	StmtYields      int            `json:"stmt_yields"`
-	Locks           int            `json:"locks"`
-	Gos             int            `json:"gos"`
-	Blocks          int            `json:"blocks"`
-	Selects         int            `json:"selects"`
-	SelectsSkipped  int            `json:"selects_skipped"`
-	ReflectSelects  int            `json:"reflect_selects"`
-	ChanRanges      int            `json:"chan_ranges"`
-	MapRanges       int            `json:"map_ranges"`
-	MapRangesMissed int            `json:"map_ranges_uncontrolled"`
-	Onces           int            `json:"onces"`
-	Failpoints      int            `json:"failpoints"`
-	Warnings        []string       `json:"warnings"`
-	MissingCritical []string       `json:"missing_critical"`
-	MissingFail     []string       `json:"missing_failpoints"`
-	Labels          int            `json:"labels"`
-	Files           int            `json:"files"`
-	CriticalHit     map[string]int `json:"critical_hit"`
+	Level            string         `json:"level"`
+	Yields           int            `json:"yields"`
+	StmtYields       int            `json:"stmt_yields"`
+	Locks            int            `json:"locks"`
+	Gos              int            `json:"gos"`
+	Blocks           int            `json:"blocks"`
+	Selects          int            `json:"selects"`
+	SelectsSkipped   int            `json:"selects_skipped"`
+	ReflectSelects   int            `json:"reflect_selects"`
+	ChanRanges       int            `json:"chan_ranges"`
+	MapRanges        int            `json:"map_ranges"`
+	MapRangesMissed  int            `json:"map_ranges_uncontrolled"`
+	Onces            int            `json:"onces"`
+	Failpoints       int            `json:"failpoints"`
+	Warnings         []string       `json:"warnings"`
+	MissingCritical  []string       `json:"missing_critical"`
+	MissingFail      []string       `json:"missing_failpoints"`
+	Labels           int            `json:"labels"`
+	Files            int            `json:"files"`
+	CriticalHit      map[string]int `json:"critical_hit"`
+	GeneratedDropped bool           `json:"generated_dropped"`
 }
 
 var (
@@ -1244,6 +1245,28 @@ func pass1() error {
 	pkgs, err := packages.Load(pcfg, "./...")
 	if err != nil {
 		return err
+	}
+	// a generated export file that no longer fits the code is dropped rather than failing the build
+	genBroken := false
+	for _, p := range pkgs {
+		for _, e := range p.Errors {
+			for name := range cfg.Generate {
+				if strings.Contains(e.Pos, name) || strings.Contains(e.Msg, name) {
+					genBroken = true
+				}
+			}
+		}
+	}
+	if genBroken {
+		for name := range cfg.Generate {
+			os.Remove(filepath.Join(root, name))
+			warn("generated file %s does not compile against this tree: dropped", name)
+		}
+		stats.GeneratedDropped = true
+		pkgs, err = packages.Load(pcfg, "./...")
+		if err != nil {
+			return err
+		}
 	}
 	sort.Slice(pkgs, func(i, j int) bool { return pkgs[i].PkgPath < pkgs[j].PkgPath })
 	for _, p := range pkgs {
